@@ -261,7 +261,14 @@ def svg_source(r, gi=0, pal=None, vb=None, max_shapes=4, gradients=True, groups=
                 # a third of the groups paint all their (overlapping) children with one flat colour, as artwork does
                 inner = emit(depth + 1, rnd_color(r, pal) if r.random() < 0.35 else None)
                 meta["groups"] += 1
-                out += f'<g opacity="{r.uniform(0.2,0.9):.2f}">{inner}</g>'
+                grp = f'<g opacity="{r.uniform(0.2,0.9):.2f}">{inner}</g>'
+                out += grp
+                if r.random() < 0.12:
+                    # the very same group twice, as siblings: equal by value, two groups in the picture
+                    out += grp
+                    meta["groups"] += 1
+                    meta["shapes"] += inner.count(" fill=")
+                    meta["twin_sibling_groups"] = meta.get("twin_sibling_groups", 0) + 1
                 continue
             el, bbox, kind = shape(r, vbx, vby, vbw, vbh, kinds)
             if outside and r.random() < 0.3:
